@@ -151,6 +151,14 @@ def jobs(tier):
     js += [guard(0, flfixed=0), guard(2, flfixed=0), guard(3, short=True)]
     if tier != "quick":
         js += [guard(0, flfixed=1), guard(2, flfixed=1), guard(4, flfixed=5)]
+    # a second registration attempted re-entrantly from a callback (also of a deny-ctx module)
+    for deny in (1, 0):
+        for cb in ((0, 1, 2) if (deny or tier != "quick") else (0,)):
+            js_extra = l2_job("C07.reregister.deny%d.cb%d" % (deny, cb), "l2/c07_reregister.c", defines={"DENY": deny, "CB": cb},
+                              symbolic=["flags of the attempted second context", "errno left by callbacks"],
+                              bounds="second m_ctx_register from callback kind %d of a %s module" % (cb, "deny-ctx" if deny else "normal"),
+                              unwind=13)
+            js.append(js_extra)
     return js
 
 
